@@ -121,12 +121,17 @@ def run(env, tier, seed, broken=None):
             lines.append('%s "%s %d";' % (lang.PRINT, 'বাংলা লেখা ' * 3, i) if i % 50 == 0 else '%s ক%d = "%s";' % (lang.VAR, i, 'অআইঈউঊ' * 5))
         lines.append('%s ক%d;' % (lang.PRINT, 7))
         big.append({'id': 'big%d' % pad, 'src': '\n'.join(lines) + '\n', 'timeout_ms': 20000})
+    # line-break conventions through the real process: CR LF / lone CR / LF inside string literals, comments and between
+    # tokens (the file's bytes reach the lexer unchanged: a CR inside a literal is part of the string)
+    for i, t in enumerate(['%s "a\r\nb" == "a\nb";\n%s "a\r\nb";\n', '%s "x";\r\n%s "y";\r\n', '%s 1; // c\r\n%s 2;\r\n', '%s 1; /* a\r\nb */ %s 2;\n',
+                           '%s "a\rb";\r%s 3;\n', '%s\r\n"lit\r\n";\r\n%s 4;', '%s "\r";\n%s "\r\n" == "\n";\n', '%s 1 +\r\n2;\n%s "end\r";']):
+        big.append({'id': 'crlf%d' % i, 'src': t % (lang.PRINT, lang.PRINT)})
     from props.common import diff_runs
     mm3, ri3, rm3 = diff_runs(env, big, need_oracle=False, timeout_ms=20000)
     mism += mm3
     for c in big:
         r = ri3[c['id']][0]
-        if r['status'] != 0 or r['stderr'] != b'':
+        if c['id'].startswith('big') and (r['status'] != 0 or r['stderr'] != b''):
             mism.append({'case': dict(c, src=c['src'][:200] + '... (%d bytes)' % len(c['src'].encode())), 'reason': 'a valid %d-byte script was not accepted: status %s, stderr %r' % (len(c['src'].encode()), r['status'], r['stderr'][:120])})
     nontriv = set()
     for i, s in enumerate(texts):
